@@ -36,7 +36,7 @@ CHECKS = {
         'batches': [
             {'machine': 'heap', 'profile': 'default',
              'runs': {'quick': 400000, 'thorough': 12000000},
-             'block': {'quick': 12500, 'thorough': 100000},
+             'block': {'quick': 12500, 'thorough': 25000},
              'wall': {'quick': 60, 'thorough': 1500}},
             {'machine': 'mm', 'profile': 'c14',
              'runs': {'quick': 320, 'thorough': 12000},
@@ -48,7 +48,7 @@ CHECKS = {
         'batches': [
             {'machine': 'diag', 'profile': 'default',
              'runs': {'quick': 32000, 'thorough': 1200000},
-             'block': {'quick': 500, 'thorough': 5000},
+             'block': {'quick': 500, 'thorough': 1500},
              'wall': {'quick': 80, 'thorough': 1700}},
         ]},
     'C10': {
@@ -68,6 +68,30 @@ DETERMINISM_SAMPLE = {'heap': 64, 'diag': 24, 'mm': 4}
 
 
 _PYC_DIR = []
+_LIVE = set()      # worker processes started and not yet reaped
+
+
+def _die_with_parent():
+  """In the child: be killed when the driver dies (no orphaned workers)."""
+  try:
+    import ctypes  # pylint: disable=g-import-not-at-top
+    ctypes.CDLL('libc.so.6', use_errno=True).prctl(1, 9)   # PDEATHSIG=KILL
+  except Exception:  # pylint: disable=broad-except
+    pass
+
+
+def _kill_children(*unused):
+  for p in list(_LIVE):
+    try:
+      if p.poll() is None:
+        p.kill()
+    except Exception:  # pylint: disable=broad-except
+      pass
+  if unused:            # called as a signal handler
+    sys.exit(2)
+
+
+atexit.register(_kill_children)
 
 
 def pyc_dir():
@@ -78,19 +102,46 @@ def pyc_dir():
   means a stale entry can never be picked up across edits of the tree.
   """
   if not _PYC_DIR:
+    # leftovers of drivers that were killed outright (SIGKILL): ours by name,
+    # safe to drop once they are hours old
+    try:
+      root = tempfile.gettempdir()
+      for name in os.listdir(root):
+        path = os.path.join(root, name)
+        if (name.startswith('verif_pyc.') and os.path.isdir(path) and
+            time.time() - os.path.getmtime(path) > 6 * 3600):
+          shutil.rmtree(path, ignore_errors=True)
+    except OSError:
+      pass
     d = tempfile.mkdtemp(prefix='verif_pyc.')
     _PYC_DIR.append(d)
     atexit.register(shutil.rmtree, d, ignore_errors=True)
   return _PYC_DIR[0]
 
 
-def worker_env(hashseed):
+def optimize_for(hashseed):
+  """Interpreter optimisation level of a worker: a build knob.
+
+  One worker interpreter in five runs under PYTHONOPTIMIZE=1 (`python -O`:
+  assert statements compiled out), derived from its hash seed so that it is
+  recorded with it and replay re-creates it.  Correct code answers the same
+  either way; code whose behaviour hides in an `assert` does not.
+  """
+  return 1 if int(hashseed) % 5 == 0 else 0
+
+
+def worker_env(hashseed, optimize=None):
   env = dict(os.environ)
   env.update({'PYTHONHASHSEED': str(hashseed), 'OPENBLAS_NUM_THREADS': '1',
               'OMP_NUM_THREADS': '1', 'MKL_NUM_THREADS': '1',
               'PYTHONPYCACHEPREFIX': pyc_dir()})
   env.pop('PYTHONDONTWRITEBYTECODE', None)
-  env.setdefault('VERIF_WORKER_TIMEOUT', '900')
+  env.pop('PYTHONOPTIMIZE', None)
+  if optimize is None:
+    optimize = optimize_for(hashseed)
+  if optimize:
+    env['PYTHONOPTIMIZE'] = '1'
+  env.setdefault('VERIF_WORKER_TIMEOUT', '1800')
   return env
 
 
@@ -114,16 +165,20 @@ class Job:
     self._out = tempfile.TemporaryFile()
     self._err = tempfile.TemporaryFile()
     self.proc = subprocess.Popen(args, stdout=self._out, stderr=self._err,
-                                 cwd=core.VERIF_DIR, env=worker_env(hashseed))
+                                 cwd=core.VERIF_DIR, env=worker_env(hashseed),
+                                 preexec_fn=_die_with_parent)
+    _LIVE.add(self.proc)
 
   def kill(self):
     self.proc.kill()
     self.proc.wait()
+    _LIVE.discard(self.proc)
     self._out.close()
     self._err.close()
 
   def finish(self):
     self.proc.wait()
+    _LIVE.discard(self.proc)
     self._out.seek(0)
     self._err.seek(0)
     out, err = self._out.read(), self._err.read()
@@ -239,7 +294,9 @@ def run_check(prop, tier, seed):
       core.tree_hash()))
   queues = []
   block_no = 0
-  block_timeout = int(os.environ.get('VERIF_BLOCK_TIMEOUT', '600'))
+  # generous: an idle-machine block takes 20-90 s; a block is only killed when
+  # something hangs, not because the machine is busy
+  block_timeout = int(os.environ.get('VERIF_BLOCK_TIMEOUT', '1500'))
   scale = float(os.environ.get('VERIF_SCALE', '1'))
   # Determinism re-check: the first few runs of every machine in two fresh
   # interpreters under two different hash seeds.
@@ -253,6 +310,9 @@ def run_check(prop, tier, seed):
     n = DETERMINISM_SAMPLE[b['machine']]
     for rep_no in (0, 1):
       hs = core.hash_seed_for(seed, 'det-%s-%d' % (b['machine'], rep_no), 0)
+      if hs % 5 == 0:
+        hs -= 1      # both under the default optimisation level: this sample
+                     # checks the harness, not the build knob of optimize_for()
       det_queue.append((None, (lambda b=b, n=n, hs=hs, rep_no=rep_no: Job(
           'det:%s:%s' % (b['machine'], b['profile']), b['machine'],
           b['profile'], seed, tier, 0, n, hs, digests=True,
@@ -299,8 +359,9 @@ def run_check(prop, tier, seed):
     a = agg.setdefault(job.batch_id, {
         'runs': 0, 'nontrivial': 0, 'ops': 0, 'compared': 0, 'faults': {},
         'probes': {}, 'skipped': {}, 'states': set(), 'transitions': set(),
-        'signatures': set(), 'samples': [], 'blocks': 0})
+        'signatures': set(), 'samples': [], 'blocks': 0, 'blocks_O': 0})
     a['blocks'] += 1
+    a['blocks_O'] += 1 if res.get('optimize') else 0
     for f in ('runs', 'nontrivial', 'ops', 'compared'):
       a[f] += res[f]
     for f in ('faults', 'probes', 'skipped'):
@@ -334,6 +395,7 @@ def run_check(prop, tier, seed):
   # A run in which the harness itself raised was not explored: it is reported
   # (stdout, evidence) and tolerated while rare; more than a handful means the
   # harness does not fit the tree under test and nothing is claimed.
+  run_errors = sorted(set(e.replace('run det:', 'run ') for e in run_errors))
   total_runs = sum(a['runs'] for a in agg.values()) + len(run_errors)
   if len(run_errors) > max(2, total_runs // 500):
     harness_errors.extend(run_errors)
@@ -361,7 +423,9 @@ def run_check(prop, tier, seed):
     if not confirmed:
       harness_errors.append(
           'violation %s (run %s#%d) did not replay identically in a fresh '
-          'interpreter:\n%s' % (cls, v['batch'], v['index'], text[-800:]))
+          'interpreter:\n%s' % (cls, v['batch'], v['index'],
+                                text[-800:].replace('VIOLATION property=',
+                                                    'violation-line property=')))
       continue
     known = core.match_known(viol, findings)
     if known:
@@ -415,11 +479,11 @@ def run_check(prop, tier, seed):
 def build_evidence(prop, tier, seed, spec, agg, wall, n_viol, det_checked,
                    skipped_blocks, harness_errors, known_lines, reported):
   runs = sum(a['runs'] for a in agg.values())
-  signatures = set()
+  # batches are different machines / profiles: their signatures never coincide
+  n_signatures = sum(len(a['signatures']) for a in agg.values())
   states = set()
   transitions = set()
   for bid, a in agg.items():
-    signatures.update(bid + s for s in a['signatures'])
     states.update(bid.split(':')[0] + s for s in a['states'])
     transitions.update(bid.split(':')[0] + s for s in a['transitions'])
   faults = {}
@@ -433,6 +497,7 @@ def build_evidence(prop, tier, seed, spec, agg, wall, n_viol, det_checked,
       probes[bid + '/' + k] = v
     per_batch[bid] = {
         'runs': a['runs'], 'blocks': a['blocks'],
+        'blocks_under_python_O': a['blocks_O'],
         'nontrivial_runs': a['nontrivial'], 'ops': a['ops'],
         'compared': a['compared'], 'faults_fired': a['faults'],
         'skipped': a['skipped'], 'abstract_states': len(a['states']),
@@ -455,7 +520,7 @@ def build_evidence(prop, tier, seed, spec, agg, wall, n_viol, det_checked,
       'violations': n_viol,
       'coverage': {
           'evaluations': runs,
-          'distinct_nontrivial': len(signatures),
+          'distinct_nontrivial': n_signatures,
           'rule': ' || '.join('%s: %s' % kv for kv in sorted(rules.items())),
           'samples': samples[:4],
           'states': len(states),
@@ -492,11 +557,27 @@ def build_evidence(prop, tier, seed, spec, agg, wall, n_viol, det_checked,
   }
 
 
+def _env_int(name, default=0):
+  """An integer from the environment; anything else is hashed to one."""
+  raw = (os.environ.get(name) or '').strip()
+  if not raw:
+    return default
+  try:
+    return int(raw)
+  except ValueError:
+    return core.derive('env', name, raw)
+
+
 def main():
+  import signal  # pylint: disable=g-import-not-at-top
+  signal.signal(signal.SIGTERM, _kill_children)
+  signal.signal(signal.SIGINT, _kill_children)
   ap = argparse.ArgumentParser()
   ap.add_argument('prop', nargs='?')
-  ap.add_argument('--tier', default=os.environ.get('VERIF_TIER') or 'quick',
-                  choices=['quick', 'thorough'])
+  env_tier = os.environ.get('VERIF_TIER')
+  ap.add_argument('--tier',
+                  default=env_tier if env_tier in ('quick', 'thorough')
+                  else 'quick', choices=['quick', 'thorough'])
   ap.add_argument('--replay')
   args = ap.parse_args()
   if args.replay:
@@ -507,7 +588,7 @@ def main():
     return p.returncode
   if args.prop not in CHECKS:
     ap.error('property must be one of %s' % sorted(CHECKS))
-  seed = int(os.environ.get('VERIF_SEED') or 0)
+  seed = _env_int('VERIF_SEED')
   return run_check(args.prop, args.tier, seed)
 
 
